@@ -503,6 +503,52 @@ class VReplaySrc(DataSource):
         return FloatDataType
 
 
+class VStore(DataSource, DataSink):
+    """A store that can be read AND written (implements both IO roles): as a node it is a source (value, default 6.0)."""
+
+    @classmethod
+    def _get_data(cls, value: float = 6.0) -> FloatDataType:
+        REC.add("VStore", None, {"value": value})
+        return FloatDataType(float(value))
+
+    @classmethod
+    def _send_data(cls, data: FloatDataType, tag: str = "t"):
+        REC.add("VStore.send", data, {"tag": tag})
+
+    @classmethod
+    def input_data_type(cls):
+        return FloatDataType
+
+    @classmethod
+    def output_data_type(cls):
+        return FloatDataType
+
+
+class VSrcDefaultSeries(VSrcDefault):
+    """SUBCLASS of the source VSrcDefault that refines output type and parameters: outputs [value, value+1, ...] (n items)."""
+
+    @classmethod
+    def _get_data(cls, value: float = 42.0, n: int = 2) -> FloatDataCollection:
+        REC.add("VSrcDefaultSeries", None, {"value": value, "n": n})
+        return FloatDataCollection.from_list([FloatDataType(float(value) + i) for i in range(int(n))])
+
+    @classmethod
+    def output_data_type(cls):
+        return FloatDataCollection
+
+
+class VNullSinkColl(VNullSink):
+    """SUBCLASS of the sink VNullSink that refines the input type (a collection sink)."""
+
+    @classmethod
+    def _send_data(cls, data: FloatDataCollection, tag: str = "t"):
+        REC.add("VNullSinkColl", data, {"tag": tag})
+
+    @classmethod
+    def input_data_type(cls):
+        return FloatDataCollection
+
+
 # Components WITHOUT a docstring of their own (perfectly legal; most quick user components look like this)
 class VNoDocSrc(DataSource):
     @classmethod
